@@ -444,7 +444,22 @@ _MVS_FLOORS = {
                            'mvs:value:continuation-not-indented': 1290, 'mvs:value:no-stated-defect': 2350,
                            'mvs:value:blank-continuation': 1050, 'mvs:value:cr': 1290},
               'per-pair': 75, 'per-shape-group': 33, 'per-shape-route': 6},
-    'thorough': {'counters': {}, 'per-pair': 0, 'per-shape-group': 0, 'per-shape-route': 0},
+    'thorough': {'counters': {'mvs:case': 267475, 'sub:case:mvs-enum': 16920, 'sub:case:mvs-tokens': 180555,
+                              'sub:case:mvs-hist': 70000, 'mvs:enum-len:5': 125000, 'mvs:enum-len:4': 50000,
+                              'mvs:enum-len:3': 5000, 'mvs:enum-len:2': 500,
+                              'mvs:object': 179000, 'mvs:prime-step-judged': 28000,
+                              'mvs:name:declared-multivalued': 126000,
+                              'mvs:route:setitem': 37000, 'mvs:route:update': 26500, 'mvs:route:setdefault': 16000,
+                              'mvs:route:ctor': 26500, 'mvs:route:copy': 26500,
+                              'mvs:cls:Dsc': 18500, 'mvs:cls:Changes': 15500, 'mvs:cls:BuildInfo': 16000,
+                              'mvs:cls:Sources': 19000, 'mvs:cls:Release': 15500, 'mvs:cls:PdiffIndex': 48000,
+                              'mvs:layout:new': 56000, 'mvs:layout:new:first': 26500, 'mvs:layout:replace-records': 25000,
+                              'mvs:layout:replace-records:first': 25000,
+                              'mvs:build:assign': 42000, 'mvs:build:parse': 21500, 'mvs:build:parse-stream': 21000,
+                              'mvs:value:trailing-newline': 9600, 'mvs:value:empty-line': 15000,
+                              'mvs:value:continuation-not-indented': 57000, 'mvs:value:no-stated-defect': 62000,
+                              'mvs:value:blank-continuation': 35000, 'mvs:value:cr': 53000},
+                 'per-pair': 3300, 'per-shape-group': 180, 'per-shape-route': 36},
 }
 for _tier, _f in _MVS_FLOORS.items():
     FLOORS[_tier]['counters'].update(_f['counters'])
